@@ -729,6 +729,15 @@ func c12PartA(spec c12Spec, res *core.CaseResult, verbose bool) {
 	// objects that do not exist
 	r.submit("set/unknown-nonce", mkSet(o0, 77, sigSet(o0)), true)
 	r.submit("batch/unknown-nonce", mkBatch(o0, 77, sigBatch(o0, batch1)), true)
+	{
+		// the nonce of a stored batch under another (well-formed) token contract: no such batch
+		m := mkBatch(o0, batch1.BatchNonce, sigBatch(o0, batch1))
+		m.TokenContract = fix.ExtAddr(spec.Chain, stranger.Hex())
+		r.submit("batch/other-token-contract", m, true)
+		m2 := mkBatch(o0, batch2.BatchNonce, sigBatch(o0, batch2))
+		m2.TokenContract = fix.ExtAddr(spec.Chain, fix.TokenAddr(spec.Seed, "nosuchtoken", 0))
+		r.submit("batch/unknown-token-contract", m2, true)
+	}
 	r.submit("call/unknown-nonce", mkCall(o0, 77, sigCall(o0, call1)), true)
 	// wrapper whose bridger (the transaction signer) is not the oracle's bridger
 	{
